@@ -96,13 +96,15 @@ impl<'t, 'd> G<'t, 'd> {
         const B: &[&str] = &[
             "/* c */", "/**/", "/* a\n   b */", "/* a\n * b\n */", "/* x\n      y\n  z */", "/* 注 */", "/*c*/", "/* a\n\n b */",
             "/* /* nested */ */",
+            "/* trailing blanks   \n   here */",
+            "/* t   */",
         ];
         let s = self.t.pick(B);
         self.p(s);
     }
 
     fn line_comment(&mut self) {
-        const L: &[&str] = &["// c", "//", "// long comment text here", "//c", "// /* x */", "// 注"];
+        const L: &[&str] = &["// c", "//", "// long comment text here", "//c", "// /* x */", "// 注", "// trailing blanks   ", "// t \t"];
         let s = self.t.pick(L);
         self.p(s);
         self.p("\n");
@@ -488,7 +490,29 @@ impl<'t, 'd> G<'t, 'd> {
                     g.p(i)
                 }
                 3 => g.p("_"),
-                _ => g.destructuring(d + 1),
+                _ => {
+                    // a destructuring, or a pattern in one or two redundant pairs of parentheses
+                    match g.t.weighted(&[5, 2, 2, 1]) {
+                        0 => g.destructuring(d + 1),
+                        1 => {
+                            g.p("(");
+                            g.destructuring(d + 1);
+                            g.p(")")
+                        }
+                        2 => {
+                            let i = g.ident();
+                            g.p("((");
+                            g.p(i);
+                            g.p("))")
+                        }
+                        _ => {
+                            let i = g.ident();
+                            g.p("(");
+                            g.p(i);
+                            g.p(")")
+                        }
+                    }
+                }
             },
             n,
             false,
@@ -587,7 +611,14 @@ impl<'t, 'd> G<'t, 'd> {
                     self.sp();
                     let op = self.binop();
                     self.p(op);
-                    self.sp();
+                    if self.cont > 0 && self.t.chance(self.cmt / 3) {
+                        // a line comment between the operator and its right operand
+                        self.p(" ");
+                        self.line_comment();
+                        self.pad_indent();
+                    } else {
+                        self.sp();
+                    }
                     self.expr(d + 1);
                 }
             }
@@ -610,6 +641,13 @@ impl<'t, 'd> G<'t, 'd> {
                             self.p("  ");
                         }
                     }
+                    if self.t.chance(self.cmt / 3) {
+                        self.p(" ");
+                        self.block_comment();
+                        if self.t.coin() {
+                            self.p(" ");
+                        }
+                    }
                     self.p(".");
                     let m = self.t.pick(&["map", "filter", "at", "len", "join", "first", "rev", "pos", "x", "fold"]);
                     self.p(m);
@@ -626,6 +664,28 @@ impl<'t, 'd> G<'t, 'd> {
                 self.p("context");
                 self.sp();
                 self.expr(d + 1)
+            }
+            13 if self.t.coin() => {
+                // ident.f1.f2(args): blanks or line breaks before the dots, one call at the end
+                let i = self.t.pick(&["std", "aaa", "calc", "long-identifier-name", "x"]);
+                self.p(i);
+                let n = 2 + self.t.below(3);
+                for _ in 0..n {
+                    match self.t.weighted(&[4, 3, if self.cont > 0 { 3 } else { 0 }]) {
+                        0 => {}
+                        1 => {
+                            let k = 1 + self.t.below(8);
+                            for _ in 0..k {
+                                self.p(" ");
+                            }
+                        }
+                        _ => self.newline_indent(),
+                    }
+                    self.p(".");
+                    let m = self.t.pick(&["math", "vec", "bbb", "ccc", "with", "where", "field-name"]);
+                    self.p(m);
+                }
+                self.args(d + 1);
             }
             13 => {
                 // field access on a call / paren
@@ -742,9 +802,12 @@ impl<'t, 'd> G<'t, 'd> {
             2 => {
                 self.p("set");
                 self.sp();
-                let f = self.t.pick(&["text", "par", "page", "heading", "f"]);
+                let f = self.t.pick(&["text", "par", "page", "heading", "f", "a.b", "c./**/f", "text", "par"]);
                 self.p(f);
                 self.args_paren_only(d);
+                if self.t.chance(20) {
+                    self.p("[c]");
+                }
                 if self.t.chance(40) {
                     self.sp();
                     self.p("if");
@@ -883,7 +946,12 @@ impl<'t, 'd> G<'t, 'd> {
                 self.p("*")
             }
             _ => {
-                self.osp0();
+                if self.t.chance(self.cmt / 2) {
+                    self.p(" ");
+                    self.block_comment();
+                } else {
+                    self.osp0();
+                }
                 self.p(":");
                 let paren = self.t.chance(80);
                 let n = 1 + self.t.weighted(&[2, 4, 4, 3, 2]);
@@ -1144,7 +1212,14 @@ impl<'t, 'd> G<'t, 'd> {
             }
         }
         if ml {
-            self.newline_indent()
+            if n > 0 && self.t.chance(self.cmt / 2) {
+                // a line comment as the last thing before the closing parenthesis
+                self.p(" ");
+                self.line_comment();
+                self.pad_indent();
+            } else {
+                self.newline_indent()
+            }
         } else if self.t.chance(30) {
             self.p(" ")
         }
@@ -1192,7 +1267,12 @@ impl<'t, 'd> G<'t, 'd> {
             }
         }
         self.math_seq(0);
-        if block {
+        if self.t.chance(self.cmt / 2) {
+            // a line comment as the last thing before the closing dollar
+            self.p(" ");
+            self.line_comment();
+            self.pad_indent();
+        } else if block {
             if self.t.chance(100) {
                 self.p("\n");
                 self.pad_indent()
